@@ -1056,15 +1056,20 @@ impl<'env> Executor<'env> {
         out: &mut Output,
     ) -> Result<Option<Value>, Error> {
         if let Some((name, block_stack)) = state.blocks.get_key_value(name) {
+            let name = *name;
             if block_stack.len() == 1 && block_stack.instructions().is_required_block() {
                 return Err(Error::new(
                     ErrorKind::InvalidOperation,
                     format!("Required block '{name}' not found"),
                 ));
             }
-            let instructions = block_stack.instructions();
+            // a block tag or `self.name()` renders the most derived definition
+            // even when it is reached from a parent definition of the same
+            // block that a `super()` call is currently rendering.
+            let depth = state.blocks.get_mut(name).unwrap().rewind();
+            let instructions = state.blocks.get(name).unwrap().instructions();
             let auto_escape = state.auto_escape;
-            state.with_execution_state(
+            let rv = state.with_execution_state(
                 instructions,
                 auto_escape,
                 Some(name),
@@ -1073,7 +1078,11 @@ impl<'env> Executor<'env> {
                     ok!(state.ctx.push_frame(Frame::default()));
                     Self::eval_state(state, out)
                 },
-            )
+            );
+            if let Some(block_stack) = state.blocks.get_mut(name) {
+                block_stack.restore(depth);
+            }
+            rv
         } else {
             Err(Error::new(
                 ErrorKind::UnknownBlock,
